@@ -1261,4 +1261,43 @@ example (i t : Option Result) (o : Opts) :
 example (i t : Option Result) (o : Opts) :
     validateTop none false .tags ⟨true, true, false⟩ ⟨i, t, none⟩ o = t := rfl
 
+/-! ## 10. the app layer: PATCH handlers get partial validation over the presence of the body they bound -/
+
+/-- `Bind(out, WithPartial(), …)`, `BindPatch[T]`: partial validation over the presence map the context computed
+    from the JSON body, whatever other (non-partial, non-presence) options come along -/
+theorem app_partial_follows_body (pm : List Path) (vs : List VOpt) (hvs : ∀ v ∈ vs, v = VOpt.other) :
+    bindMode [.part, .validation vs] (some pm) = some pm ∧ bindPatchMode [.validation vs] (some pm) = some pm := by
+  have hfold : ∀ (c : VCfg), vs.foldl applyVOpt c = c := by
+    induction vs with
+    | nil => intro c; rfl
+    | cons v rest ih =>
+      intro c
+      have hv : v = VOpt.other := hvs v (by simp)
+      subst hv
+      simpa [applyVOpt] using ih (fun w hw => hvs w (by simp [hw])) c
+  constructor <;>
+  · simp only [bindPatchMode, bindMode, mkBCfg, List.foldl, applyBOpt, validateInternalOpts, foldV, List.nil_append,
+      List.cons_append, if_true, applyVOpt, hfold, tagsMode]
+
+/-- partial mode asked for through the validation options (`WithValidationOptions(validation.WithPartial(true))`,
+    or `BindOnly` + `Validate(validation.WithPartial(true))`) is partial validation over the same presence map -/
+theorem app_partial_through_validation_options (pm : List Path) :
+    bindMode [.validation [.part true]] (some pm) = some pm ∧
+    validateMode [.part true] (some pm) = some pm := by
+  constructor <;> rfl
+
+/-- an explicit `app.WithPresence(pm')` takes the place of the computed map; a presence map given among the
+    validation options comes last and wins over both -/
+theorem app_explicit_presence_wins (pm pm' pm'' : List Path) :
+    bindMode [.part, .presence pm'] (some pm) = some pm' ∧
+    bindMode [.part, .presence pm', .validation [.presence pm'']] (some pm) = some pm'' := by
+  constructor <;> rfl
+
+/-- without `WithPartial` the body's presence map is handed over all the same but validation is full; and when no
+    JSON body was bound there is no presence map: a partial request falls back to full validation (documented in
+    `validateWithTags`: `cfg.partial && cfg.presence != nil`) -/
+theorem app_full_otherwise (pm : List Path) :
+    bindMode [] (some pm) = none ∧ bindMode [.part] none = none ∧ validateMode [] (some pm) = none := by
+  refine ⟨rfl, rfl, rfl⟩
+
 end Rivaas.C05
